@@ -24,6 +24,7 @@ func init() {
 		MinNontrivial:         6000,
 		MinNontrivialThorough: 150000,
 		Shards:                16,
+		GoMaxProcs:            2,
 		Assumptions: []string{
 			"encoding/json sorts map keys, so two differing encodings of one *Certificate come from zcrypto code",
 			"Certificate.Verify is executed too but is outside the statement: a panic there is counted (outside_statement_panics), not reported",
